@@ -45,9 +45,12 @@ CHECKS.update({
     'C17': ('model_checking', 'PARTIAL: two-thread mode of the symbolic executor - two harness bodies (hashStrings; spec.Parse of two specifications) run as coroutines, every call/load/store/map access inside the watched functions is a preemption point and the schedule (bounded number of context switches) is a path decision, so all such schedules are explored; each result must equal the isolated result and must not depend on what was processed before; a counterexample is confirmed natively with the race detector', '§7 C17'),
 })
 
+CHECKS.update({
+    'C12': ('model_checking', 'symbolic execution of the whole spec.Parse (real directive actions 12-19, AddPrecedence, symbol table) on a fixed small specification followed by every token sequence up to a length bound (kinds symbolic): for every accepted result the recorded precedence levels are compared with the directives read off the reference derivation tree - count, order, associativity, exactly the listed terminals, and the productions of every rule handle (members of the derived grammar, one per alternative)', '§7 C12 / §13.3'),
+})
+
 NA = {
     'C07': 'well-formedness checks run on hash tables keyed by fnv hashes and are reachable only through the whole parse; a solver decides nothing there that running the program does not (DESIGN.md §7 C07)',
-    'C12': 'structural equality between two finite lists per directive list; no second dimension for a solver to quantify over (DESIGN.md §7 C12)',
     'C15': 'nondeterminism sources (map iteration, time-seeded shuffle) sit behind the whole automata/template stack; deciding technique is run-twice-and-diff, outside this family (DESIGN.md §7 C15)',
 }
 
